@@ -34,6 +34,7 @@ type TraceCfg struct {
 	Sys            bool     `json:"sys"`  // system contexts and system entities are used
 	Veto           bool     `json:"veto"` // the vetoing constraint is armed now and then
 	MaxOps         int      `json:"maxOps"`
+	ChildFeatures  bool     `json:"childFeatures"`
 }
 
 func in(xs []string, x string) bool {
@@ -70,6 +71,7 @@ func DbJSON(f project.Facts, u Universe) map[string]any {
 	}
 	ent, ext := map[string]any{}, map[string]any{}
 	backBoss, lnkPT, rcPT := map[string]any{}, map[string]any{}, map[string]any{}
+	backChief, lnkST := map[string]any{}, map[string]any{}
 	for _, id := range u.Ids {
 		if _, ok := get("ent/" + id + "/sys"); ok {
 			p := map[string]any{}
@@ -101,6 +103,10 @@ func DbJSON(f project.Facts, u Universe) map[string]any {
 		backBoss[id] = splitList(v)
 		v, _ = get("lnkPT/" + id)
 		lnkPT[id] = splitList(v)
+		v, _ = get("backChief/" + id)
+		backChief[id] = splitList(v)
+		v, _ = get("lnkST/" + id)
+		lnkST[id] = splitList(v)
 		m := map[string]any{}
 		for _, t := range u.Teams {
 			c, _ := get("rcPT/" + id + "/" + t)
@@ -111,6 +117,7 @@ func DbJSON(f project.Facts, u Universe) map[string]any {
 	}
 	tms := []any{}
 	backTeam, lnkTP, rcTP := map[string]any{}, map[string]any{}, map[string]any{}
+	chief, lnkTS := map[string]any{}, map[string]any{}
 	for _, t := range u.Teams {
 		if _, ok := get("tms/" + t); ok {
 			tms = append(tms, t)
@@ -119,6 +126,13 @@ func DbJSON(f project.Facts, u Universe) map[string]any {
 		backTeam[t] = splitList(v)
 		v, _ = get("lnkTP/" + t)
 		lnkTP[t] = splitList(v)
+		v, _ = get("lnkTS/" + t)
+		lnkTS[t] = splitList(v)
+		c, ok := get("chief/" + t)
+		if !ok {
+			c = project.Nil
+		}
+		chief[t] = c
 		m := map[string]any{}
 		for _, id := range u.Ids {
 			c, _ := get("rcTP/" + t + "/" + id)
@@ -148,7 +162,8 @@ func DbJSON(f project.Facts, u Universe) map[string]any {
 		sRoles[r] = splitList(v)
 	}
 	out := map[string]any{"ent": ent, "ext": ext, "tms": tms, "uName": uniq("uName", u.Names), "uNick": uniq("uNick", u.Nicks), "uGrade": uniq("uGrade", u.Grades),
-		"sRoles": sRoles, "sKeys": sKeys, "backBoss": backBoss, "backTeam": backTeam, "lnkPT": lnkPT, "lnkTP": lnkTP, "rcPT": rcPT, "rcTP": rcTP}
+		"sRoles": sRoles, "sKeys": sKeys, "backBoss": backBoss, "backTeam": backTeam, "lnkPT": lnkPT, "lnkTP": lnkTP, "rcPT": rcPT, "rcTP": rcTP,
+		"chief": chief, "backChief": backChief, "lnkST": lnkST, "lnkTS": lnkTS}
 	var left []string
 	for k := range f {
 		if !used[k] {
@@ -196,6 +211,48 @@ func (t *tracer) hasExt(id string) bool {
 	return m["none"] == nil
 }
 
+// ids that are present / have child data / teams that exist, in the state after the last line
+func (t *tracer) havePeople(child bool) []string {
+	var out []string
+	for _, id := range t.cfg.U.Ids {
+		if (child && t.hasExt(id)) || (!child && t.present(id)) {
+			out = append(out, id)
+		}
+	}
+	return out
+}
+
+func (t *tracer) haveTeams() []string {
+	var out []string
+	for _, x := range t.cfg.U.Teams {
+		if t.team(x) {
+			out = append(out, x)
+		}
+	}
+	return out
+}
+
+// mostly an element of `have` (when there is one), now and then any element of the universe
+func (t *tracer) mostly(have, universe []string) string {
+	if len(have) > 0 && t.rng.Intn(5) != 0 {
+		return t.pick(have)
+	}
+	return t.pick(universe)
+}
+
+func (t *tracer) mostlySubset(have, universe []string, max int) []any {
+	if t.rng.Intn(5) != 0 {
+		out := []any{}
+		for _, x := range have {
+			if len(out) < max && t.rng.Intn(2) == 0 {
+				out = append(out, x)
+			}
+		}
+		return out
+	}
+	return t.subset(universe, max)
+}
+
 var allFields = []string{"name", "nick", "roles", "boss", "team", "teams", "lead", "grade"}
 
 func (t *tracer) person() map[string]any {
@@ -215,10 +272,10 @@ func (t *tracer) person() map[string]any {
 		p["roles"] = []any{""}
 	}
 	if t.cfg.Boss && t.rng.Intn(2) == 0 {
-		p["boss"] = t.pick(u.Ids)
+		p["boss"] = t.mostly(t.havePeople(false), u.Ids)
 	}
 	if t.cfg.Team && t.rng.Intn(2) == 0 {
-		p["team"] = t.pick(u.Teams)
+		p["team"] = t.mostly(t.haveTeams(), u.Teams)
 	}
 	if t.cfg.Sys && t.rng.Intn(8) == 0 {
 		p["sys"] = true
@@ -278,17 +335,27 @@ func (t *tracer) likely(op string, a map[string]any) bool {
 		return a["veto"] != true && p["sys"] != true
 	case "delete":
 		return t.present(id) && a["veto"] != true
-	case "createTeam":
-		return !t.team(id)
+	case "createTeam", "updateTeam":
+		if c := fmt.Sprint(a["chief"]); c != project.Nil && !t.hasExt(c) {
+			return false
+		}
+		return (op == "createTeam") != t.team(id)
 	case "deleteTeam":
 		return t.team(id)
 	case "addLinks", "removeLinks", "setLinks":
-		people := a["side"] == "people"
-		if (people && !t.present(id)) || (!people && !t.team(id)) {
+		side := fmt.Sprint(a["side"])
+		people := side == "people" || side == "staff"
+		here := func(x string) bool {
+			if side == "staff" || side == "squads" {
+				return t.hasExt(x)
+			}
+			return t.present(x)
+		}
+		if (people && !here(id)) || (!people && !t.team(id)) {
 			return false
 		}
 		for _, k := range a["keys"].([]any) {
-			if (people && !t.team(fmt.Sprint(k))) || (!people && !t.present(fmt.Sprint(k))) {
+			if (people && !t.team(fmt.Sprint(k))) || (!people && !here(fmt.Sprint(k))) {
 				return op == "removeLinks"
 			}
 		}
@@ -379,22 +446,37 @@ func (t *tracer) draw() (string, map[string]any) {
 				}
 				a["k"], a["v"] = "name", n
 			}
-		case "createTeam":
-			a["id"] = t.pick(u.Teams)
-		case "deleteTeam":
-			a["id"], a["osys"] = t.pick(u.Teams), osys
-		case "addLinks", "removeLinks", "setLinks":
-			if t.rng.Intn(2) == 0 {
-				a["side"], a["id"], a["keys"] = "people", t.pick(u.Ids), t.subset(u.Teams, 3)
-			} else {
-				a["side"], a["id"], a["keys"] = "teams", t.pick(u.Teams), t.subset(u.Ids, 3)
+		case "createTeam", "updateTeam":
+			a["id"], a["chief"] = t.pick(u.Teams), project.Nil
+			if op == "updateTeam" {
+				if !t.cfg.ChildFeatures {
+					continue
+				}
+				a["id"] = t.mostly(t.haveTeams(), u.Teams)
 			}
-		case "addLink", "removeLink":
-			a["id"], a["key"] = t.pick(u.Ids), t.pick(u.Teams)
-		case "rcInc", "rcDec":
-			a["id"], a["key"] = t.pick(u.Ids), t.pick(u.Teams)
+			if t.cfg.ChildFeatures && t.rng.Intn(2) == 0 {
+				a["chief"] = t.mostly(t.havePeople(true), u.Ids)
+			}
+		case "deleteTeam":
+			a["id"], a["osys"] = t.mostly(t.haveTeams(), u.Teams), osys
+		case "addLinks", "removeLinks", "setLinks":
+			people := t.rng.Intn(2) == 0
+			child := t.cfg.ChildFeatures && t.rng.Intn(2) == 0 // the collection registered on the child store
+			if people {
+				a["side"], a["id"], a["keys"] = "people", t.mostly(t.havePeople(child), u.Ids), t.mostlySubset(t.haveTeams(), u.Teams, 3)
+				if child {
+					a["side"] = "staff"
+				}
+			} else {
+				a["side"], a["id"], a["keys"] = "teams", t.mostly(t.haveTeams(), u.Teams), t.mostlySubset(t.havePeople(child), u.Ids, 3)
+				if child {
+					a["side"] = "squads"
+				}
+			}
+		case "addLink", "removeLink", "rcInc", "rcDec":
+			a["id"], a["key"] = t.mostly(t.havePeople(false), u.Ids), t.mostly(t.haveTeams(), u.Teams)
 		case "rcSet":
-			a["id"], a["key"], a["count"] = t.pick(u.Ids), t.pick(u.Teams), t.rng.Intn(4)
+			a["id"], a["key"], a["count"] = t.mostly(t.havePeople(false), u.Ids), t.mostly(t.haveTeams(), u.Teams), t.rng.Intn(4)
 		default:
 			continue
 		}
